@@ -559,6 +559,43 @@ static void init_form() {
 	}
 }
 
+// ------------------------------------------------------------------ the constructors that take their allocator from `Allocator()`
+// (how most code writes `frg::vector<T, KernelAlloc> v;`), and vector::detach()
+static void default_allocator_ctors() {
+	if(!want_mode("default-alloc")) return;
+	Rng r(derive_seed("default-alloc"));
+	AllocState *dflt = TrackedAlloc::default_state();
+	for(long long i = opt.shard; i < (long long)scaled(300, 10000); i += opt.nshards) {
+		begin_case("default-alloc", i);
+		dflt->owner = "default-constructed allocator"; g_elems.owner = "default-alloc";
+		size_t blocks0 = dflt->live.size();
+		{
+			frg::vector<Elem, TrackedAlloc> v; frg::small_vector<Elem, 2, TrackedAlloc> sv; frg::stack<Elem, TrackedAlloc> st; frg::list<Elem, TrackedAlloc> li;
+			frg::dyn_array<Elem, TrackedAlloc> d0; size_t dn = r.below(5); frg::dyn_array<Elem, TrackedAlloc> dn_arr(dn);
+			std::vector<int> ref;
+			size_t n = r.below(7);
+			for(size_t k = 0; k < n; k++) { int x = (int)r.below(1000); ref.push_back(x); v.push_back(Elem(x)); sv.push_back(Elem(x)); st.push(Elem(x)); li.emplace_back(x); }
+			bool ok = v.size() == n && sv.size() == n && st.size() == n && d0.size() == 0 && dn_arr.size() == dn;
+			for(size_t k = 0; ok && k < n; k++) ok = v[k].get() == ref[k] && sv[k].get() == ref[k];
+			if(n && ok) ok = st.top().get() == ref.back() && li.front().get() == ref.front();
+			if(!ok) model_violation("default-allocator constructors", "content", "a container built with its default-constructed allocator does not hold what was pushed");
+			// detach(): the vector forgets its buffer without touching it (the caller has taken it over)
+			if(n) {
+				Elem *buf = v.data(); size_t cnt = v.size();
+				v.detach();
+				if(v.size() != 0 || !v.empty() || v.data() != nullptr) model_violation("vector", "detach", "after detach() the vector is not empty / still points at the buffer");
+				for(size_t k = 0; k < cnt; k++) { if(buf[k].get() != ref[k]) model_violation("vector", "detach", "detach() touched the elements it gave away"); buf[k].~Elem(); }
+				TrackedAlloc().free(buf);
+				v.push_back(Elem(7)); if(v.size() != 1 || v[0].get() != 7) model_violation("vector", "detach", "the vector is not usable after detach()");
+			}
+		}
+		expect_no_elems("after destroying containers built with default-constructed allocators");
+		if(dflt->live.size() != blocks0) { lifetime_violation("alloc:leak:default-alloc", strf("%zu blocks of the default-constructed allocator are still allocated after its containers were destroyed", dflt->live.size() - blocks0)); dflt->live.clear(); }
+		count("default_allocator_cases");
+		note_distinct(mix(hash_str("default-alloc"), i));
+	}
+}
+
 // ---- an intrusive list (and its nodes) with static storage duration that is filled while other namespace-scope objects are still
 // being constructed (driver registries, the kernel's list of CPUs): list and hook have constexpr constructors, so both are
 // constant-initialised and what the constructor of an *earlier* global linked is still linked when main() starts.
@@ -604,5 +641,6 @@ int main(int argc, char **argv) {
 	run_type<IListAdapter>("intrusive_list", t ? 6 : 5, scaled(600, 30000), t ? 300 : 60);
 	float_equality();
 	init_form();
+	default_allocator_ctors();
 	return finish();
 }
